@@ -228,7 +228,8 @@ static void debug_with_chunksize(uint8_t *buf, unsigned int opcode_pos,
  */
 static int check_len_or_resize(assemblyline_t al, int buf_pos) {
 
-  if (buf_pos + BUFFER_TOLERANCE > al->buffer_len) {
+  // widen before adding: a position within 20 bytes of INT_MAX must not wrap
+  if ((long)buf_pos + BUFFER_TOLERANCE > (long)al->buffer_len) {
     FAIL_IF_VAR(al->external, "exceeded memory buffer: al->buffer_len = %d\n",
                 al->buffer_len)
 #ifdef __linux__
